@@ -153,6 +153,12 @@ def r06_5(ctx):
             o["rule"] = "R06.5"
 
 
-RULES = [("R06.1", r06_1), ("R06.2", r06_2), ("R06.3", r06_3), ("R06.4", r06_4), ("R06.5", r06_5)]
+def r06_s(ctx):
+    """the whitespace skipper never jumps over an unseen byte (shared with C01): pretty output parses back"""
+    from . import c01
+    ctx.include(c01.r01_12, 'R06.S')
+
+
+RULES = [("R06.1", r06_1), ("R06.2", r06_2), ("R06.3", r06_3), ("R06.4", r06_4), ("R06.5", r06_5), ("R06.S", r06_s)]
 MULTI_CONFIG_RULES = ("R06.1", "R06.2", "R06.3", "R06.4")
 THOROUGH_CONFIGS = ["native-allfeat"]
